@@ -1,16 +1,55 @@
 /-
 C14 — property theorems for `c_var2h` / `dutils.var2h`.
-Model: `HydroVerif/Model/C14.lean`; vocabulary and loop invariant: `Lemmas/C14.lean`.
+Model: `HydroVerif/Model/C14.lean`; vocabulary and loop invariant: `Lemmas/C14.lean`; the interpolant as one
+function ℝ → ℝ: `Lemmas/C14Real.lean`.
 
 Reading guide.  `obs` is the list of observations `(epoch second, value or NaN)`, `pairs obs` its
 observation intervals, period `i` is `[perS P hstart i, perE P hstart i)` in whole seconds.
 `contrib c S E a b` is the exact integral over `[S, E]` of the affine piece through `a` and `b`
-(`trapArea`, shown below to be Mathlib's interval integral) — or, for rainfall, the share of the
-increment `b.2` that falls in `[S, E]` (times `P`).  `invalid c a b` is the kernel's validity test
-(NaN or value below `-eps` at either end, or longer than `maxgapsec`).
-All statements hold for every ordered field (`ℝ`, `ℚ`, …), every series length and every number of periods.
+(`trapArea`, Mathlib's interval integral) — or, for rainfall, the share of the increment `b.2` that falls in
+`[S, E]` (times `P`).  `invalid c a b` is the kernel's validity test (`invalid_iff`).  `interp obs` is the
+piecewise-linear interpolant.  All statements hold for every ordered field (`ℝ`, `ℚ`, …) unless they
+mention an integral, for every series length and every number of periods.  Every model function named here
+(`kernel`, `wrapper`, `wrapperIdx`, `startScan`, `origin`, `nvalhOf`, `wallSec`) is executed by the driver
+and compared with the real code.
+
+CLAUSE → THEOREMS (what remains outside)
+
+1. "every value var2h returns is either missing or the time-average over its period of the piecewise-linear
+   interpolant"
+   → `value_is_average_of_interpolant`, `wrapper_value_is_average_of_interpolant` (ℝ: h = (∫_S^E interp obs)/P);
+     `value_is_period_integral` (any field, closed form), `value_is_integral_of_interpolant`,
+     `trapArea_eq_integral`, `overlaps_tile(_covered)`, `lin_left/right`, `kernel_total`,
+     `wrapper_spec`, `wrapper_is_kernel_plus_final`.
+   outside: IEEE rounding (Float instance compared with the code, bit-equal so far).
+2. "(for rainfall, the period total of the increments spread uniformly over their intervals)"
+   → `rainfall_value_is_prorated_total`.
+3. "so that the time-integral of the series is conserved" → `conservation` (any run of non-missing periods).
+4. "apart from the final period, a period is missing exactly when an interval overlapping it is invalid
+   (missing or negative end value, or longer than maxgapsec)"
+   → `invalid_iff`, `valid_iff` (what invalid means); `invalid_overlap_makes_missing`, `gap_makes_missing`
+     (⇐); `missing_has_cause`, `valid_data_gives_value` (⇒); `missing_iff_invalid_overlap` (⇔ when no invalid
+     interval merely ends on the period start); `nonmissing_covered_and_valid`;
+     final period: `wrapper_final_missing`; hourly: `hourly_periods_within_data`, `wrapper_hourly_missing_cause`
+     (no other cause exists); half-hourly: `halfhourly_periods_within_data`, `halfhourly_periods_overhang` —
+     only period `nvalh-2` can extend past the last stamp (by < 1800 s) and is then missing although no interval
+     is invalid: the interpolant does not exist there, clause 1 forces it (this is the repaired defect).
+   outside: intervals that merely touch a period boundary (left open by the property; the model says exactly
+   what the code does: `missing_has_cause` has `≤`, the converse `<`); "negative" is `< -1e-8`.
+5. "the result does not depend on the storage resolution or time zone of the index"
+   → `index_independence`, `index_independence_two`, `wallSec_whole`, `wallSec_floor`: the stored index (unit,
+     raw int64 count of the UTC instant, UTC offset of each stamp) is part of the model (`wrapperIdx`).
+   outside: pandas/numpy do compute `raw`, the offsets and the final `date_range` (external; the correspondence
+   compares the seconds handed to the kernel with `wallSec` for every unit/zone, offsets taken from zoneinfo).
+6. quantifier "≥ 2 observations, ≥ 2 periods, integer-second stamps, duplicates, stamps on boundaries, any
+   values, P ∈ {1800,3600}, rainfall flag, maxgapsec ≥ 3600": hypotheses `Sorted`, two leading observations,
+   `CfgOK`, `3600 ≤ maxgap`, `1 ≤ nvalh` only; stamps are `Int` by type.  Wrapper arithmetic: `origin_spec`,
+   `nvalhOf_spec`, `wrapper_empty`, `startScan_position`.  Rejected input (not a clause of the property, glue of
+   the wrapper): `wrapper_rejects_bad_period`, `wrapper_rejects_small_maxgap`, `kernel_rejects_late_start`.
+Each group is followed, at the end of the file, by `example`s on one worked series (`exObs`).
 -/
 import HydroVerif.Lemmas.C14
+import HydroVerif.Lemmas.C14Real
 import Mathlib.Analysis.SpecialFunctions.Integrals.Basic
 
 namespace HydroVerif.C14
@@ -589,28 +628,169 @@ theorem value_is_integral_of_interpolant (c : Cfg ℝ) (hc : CfgOK c) (hr : c.ra
     cases va <;> cases vb <;> simp [trapArea_eq_integral]
   · simp only [h1, if_false]
 
-/-! ### the hypotheses are satisfiable -/
+/-- over the reals, without the rainfall flag, a contribution is the clipped integral of the piece -/
+theorem contrib_eq_segInt (c : Cfg ℝ) (hr : c.rain = 0) (S E : Int) (p : Obs ℝ × Obs ℝ) :
+    contrib c S E p.1 p.2 = segInt S E p := by
+  have hr1 : ¬ c.rain = 1 := by omega
+  unfold contrib segInt
+  by_cases h1 : ovLo S p.1 < ovHi E p.2
+  · simp only [h1, if_true, hr1, if_false]
+    rcases p with ⟨⟨ta, va⟩, ⟨tb, vb⟩⟩
+    cases va <;> cases vb <;> simp [trapArea_eq_integral, pieceFun]
+  · simp only [h1, if_false]
 
-/-- admissible arguments exist -/
-example : CfgOK (⟨1800, 0, 3600, 1 / 100000000⟩ : Cfg ℚ) :=
-  ⟨Or.inl rfl, Or.inl rfl, by norm_num, by norm_num⟩
+/-- **Value, as the time-average of THE interpolant.** Over the reals, without the rainfall flag, every
+non-missing value is the interval integral over its period of the piecewise-linear interpolant `interp obs`
+of the observations (one function ℝ → ℝ), divided by the period. -/
+theorem value_is_average_of_interpolant (c : Cfg ℝ) (hc : CfgOK c) (hr : c.rain = 0) (hstart nvalh : Int)
+    (a b : Obs ℝ) (rest : List (Obs ℝ)) (hs : Sorted (a :: b :: rest)) (ha : a.1 ≤ hstart)
+    (out : List (Option ℝ)) (hk : kernel c hstart nvalh (a :: b :: rest) = .ok out)
+    (i : Nat) (h : ℝ) (hi : out[i]? = some (some h)) :
+    h = (∫ x in ((perS c.P hstart i : Int) : ℝ)..((perE c.P hstart i : Int) : ℝ), interp (a :: b :: rest) x)
+          / (c.P : ℝ) := by
+  have hval := value_is_period_integral c hc hstart nvalh a b rest hs ha out hk i h hi
+  have hcov := (nonmissing_covered_and_valid c hc hstart nvalh a b rest hs ha out hk i h hi).1
+  have hP := hc.P_pos
+  have hPne : (c.P : ℝ) ≠ 0 := by exact_mod_cast hP.ne'
+  have hS : a.1 ≤ perS c.P hstart i := by
+    have : 0 ≤ (i : Int) * c.P := mul_nonneg (by omega) hP.le
+    unfold perS; omega
+  have hSE : perS c.P hstart i ≤ perE c.P hstart i := by unfold perS perE; omega
+  rw [integral_interp_eq_sum (perE c.P hstart i) (b :: rest) a (perS c.P hstart i) hs hS hSE hcov]
+  rw [eq_div_iff hPne, hval]
+  congr 1
+  apply List.map_congr_left
+  intro p _
+  exact contrib_eq_segInt c hr _ _ p
 
-/-- a non-decreasing series with a duplicate stamp, a stamp on a period boundary and a NaN -/
-example : Sorted ([(1, some 10), (601, some 4), (3600, some 4), (3600, some 7), (5400, none), (9000, some 1)] :
-    List (Obs ℚ)) := by
-  simp [Sorted]
+/-- the same for what `dutils.var2h` returns: origin the first whole hour after the first stamp, value `i`
+the average of the interpolant over `[origin + i P, origin + (i+1) P]` -/
+theorem wrapper_value_is_average_of_interpolant (c : Cfg ℝ) (hc : CfgOK c) (hr : c.rain = 0)
+    (hgap : 3600 ≤ c.maxgap) (a b : Obs ℝ) (rest : List (Obs ℝ)) (hs : Sorted (a :: b :: rest))
+    (hn : 1 ≤ nvalhOf a.1 (lastTime (a :: b :: rest)) c.P)
+    (hstart : Int) (res : List (Option ℝ)) (hw : wrapper c (a :: b :: rest) = .ok (hstart, res))
+    (i : Nat) (h : ℝ) (hi : res[i]? = some (some h)) :
+    hstart = origin a.1 ∧
+    h = (∫ x in ((perS c.P hstart i : Int) : ℝ)..((perE c.P hstart i : Int) : ℝ), interp (a :: b :: rest) x)
+          / (c.P : ℝ) := by
+  obtain ⟨h1, h2, _, out, hk, rfl⟩ := wrapper_is_kernel_plus_final c hc hgap a b rest hs hn hstart res hw
+  refine ⟨h1, ?_⟩
+  have hi' : out[i]? = some (some h) := by
+    by_cases hlt : i < out.length
+    · rwa [List.getElem?_append_left hlt] at hi
+    · rw [List.getElem?_append_right (by omega)] at hi
+      cases hk' : i - out.length with
+      | zero => rw [hk'] at hi; simp at hi
+      | succ k => rw [hk'] at hi; simp at hi
+  exact value_is_average_of_interpolant c hc hr hstart _ a b rest hs h2 out hk i h hi'
 
-/-- the defect input of the property: a constant series stamped every 10 minutes from 00:00:01 to 01:10:01,
-half-hourly output from 01:00; the period 01:00–01:30 extends past the last stamp and is missing -/
-example : kernel (⟨1800, 0, 432000, 1 / 100000000⟩ : Cfg ℚ) 3600 2
+/-! ### the hypotheses are satisfiable: one worked series (exact rationals)
+
+hourly output from 01:00, `maxgapsec = 7200`: stamps on period boundaries, a duplicate stamp (jump 8 → 6 at
+02:00), a 3-hour gap, a NaN, a negative value. -/
+
+def exCfg : Cfg ℚ := ⟨3600, 0, 7200, 1 / 100000000⟩
+
+def exObs : List (Obs ℚ) :=
+  [(0, some 0), (1800, some 2), (3600, some 4), (7200, some 8), (7200, some 6), (10800, some 6),
+   (21600, some 6), (25200, none), (28800, some 1), (32400, some (-1)), (36000, some 3), (39600, some 3),
+   (43200, some 5)]
+
+/-- `CfgOK` (all theorems): the kernel's own constants -/
+example : CfgOK exCfg := ⟨Or.inr rfl, Or.inl rfl, by norm_num [exCfg], by norm_num [exCfg]⟩
+example : CfgOK (⟨1800, 1, 3600, 1 / 100000000⟩ : Cfg ℚ) := ⟨Or.inl rfl, Or.inr rfl, by norm_num, by norm_num⟩
+example : CfgOK (⟨3600, 0, 432000, 1 / 100000000⟩ : Cfg ℝ) := ⟨Or.inr rfl, Or.inl rfl, by norm_num, by norm_num⟩
+
+/-- `Sorted`, at least two observations, first stamp not later than the origin -/
+example : Sorted exObs := by simp [Sorted, exObs]
+
+/-- `kernel_total`, and the outputs the other examples refer to: periods 0, 1 and 10 are returned, 2-4
+are hit by the gap, 5-6 by the NaN, 7-8 by the negative value, 9 only *touches* the invalid interval
+32400 → 36000 (the case the property leaves open; the code makes it missing) -/
+example : kernel exCfg 3600 12 exObs =
+    .ok [some 6, some 6, none, none, none, none, none, none, none, none, some 4] := by decide +kernel
+
+/-- `value_is_period_integral` (i = 0, h = 6): the right-hand side is `6 * 3600` -/
+example : ((pairs exObs).map fun p => contrib exCfg (perS 3600 3600 0) (perE 3600 3600 0) p.1 p.2).sum
+    = 6 * 3600 := by decide +kernel
+
+/-- `nonmissing_covered_and_valid` / `valid_data_gives_value` (i = 0): the period ends before the last stamp and
+all touching intervals have present, non-negative values and are at most `maxgapsec` long -/
+example : perE exCfg.P 3600 0 ≤ lastTime exObs ∧
+    ∀ p ∈ pairs exObs, p.1.1 < perE exCfg.P 3600 0 → perS exCfg.P 3600 0 ≤ p.2.1 →
+      invalid exCfg p.1 p.2 = false ∧ p.2.1 - p.1.1 ≤ exCfg.maxgap := by decide +kernel
+
+/-- `missing_iff_invalid_overlap` (i = 2): the period is inside the data, no invalid interval ends on its
+start, and an invalid interval (the gap) overlaps it -/
+example : perE exCfg.P 3600 2 ≤ lastTime exObs ∧
+    (∀ p ∈ pairs exObs, invalid exCfg p.1 p.2 = true → p.2.1 ≠ perS exCfg.P 3600 2) ∧
+    (∃ p ∈ pairs exObs, p.1.1 < perE exCfg.P 3600 2 ∧ perS exCfg.P 3600 2 < p.2.1 ∧ invalid exCfg p.1 p.2 = true) := by
+  decide +kernel
+
+/-- the touching case (i = 9): no invalid interval overlaps the period, one ends exactly on its start
+(`htouch` fails), and the code returns missing — `missing_has_cause` applies, `missing_iff_invalid_overlap` does not -/
+example : (¬ ∃ p ∈ pairs exObs, p.1.1 < perE exCfg.P 3600 9 ∧ perS exCfg.P 3600 9 < p.2.1 ∧ invalid exCfg p.1 p.2 = true) ∧
+    (∃ p ∈ pairs exObs, invalid exCfg p.1 p.2 = true ∧ p.2.1 = perS exCfg.P 3600 9) := by decide +kernel
+
+/-- `gap_makes_missing` (i = 2): the interval 10800 → 21600 is longer than `maxgapsec` and overlaps the period -/
+example : ((10800, some 6), (21600, some 6)) ∈ pairs exObs ∧ (10800 : Int) < perE exCfg.P 3600 2 ∧
+    perS exCfg.P 3600 2 < (21600 : Int) ∧ exCfg.maxgap < 21600 - 10800 := by decide +kernel
+
+/-- `conservation` (i = 0, m = 2): `(6 + 6) * 3600` is the integral over 3600 .. 10800 -/
+example : ((List.range 2).map fun _ => (6 : ℚ)).sum * (exCfg.P : ℚ) =
+    ((pairs exObs).map fun p => contrib exCfg (perS exCfg.P 3600 0) (perS exCfg.P 3600 (0 + 2)) p.1 p.2).sum := by
+  decide +kernel
+
+/-- `rainfall_value_is_prorated_total`: with the flag, period 0 gets the whole increment 8, period 1 the 6 -/
+example : kernel { exCfg with rain := 1 } 3600 3 exObs = .ok [some 8, some 6] := by decide +kernel
+
+/-- `overlaps_tile_covered` (S = 3600, E = 7200) -/
+example : ((pairs exObs).map fun p => max 0 (ovHi 7200 p.2 - ovLo 3600 p.1)).sum = 7200 - 3600 := by decide +kernel
+
+/-- `kernel_rejects_late_start` -/
+example : kernel exCfg (-1) 3 exObs = .error .startBeforeData := by decide +kernel
+
+/-- `wrapper_spec`, `wrapper_is_kernel_plus_final`, `wrapper_final_missing`, `hourly_periods_within_data`:
+`nvalh = 12`, origin 3600, the kernel's 11 values and the final missing one -/
+example : nvalhOf 0 (lastTime exObs) exCfg.P = 12 ∧ origin 0 = 3600 := by decide +kernel
+example : wrapper exCfg exObs =
+    .ok (3600, [some 6, some 6, none, none, none, none, none, none, none, none, some 4, none]) := by decide +kernel
+
+/-- `halfhourly_periods_overhang`: the defect input of the property — constant 10 every 10 minutes from
+00:00:01 to 02:00:01, half-hourly: `nvalh = 4`, period 2 = 02:00–02:30 extends past the last stamp and is missing
+(before the fix: `10 * 1 s / 1800 s`) -/
+example : wrapper (⟨1800, 0, 432000, 1 / 100000000⟩ : Cfg ℚ)
     [(1, some 10), (601, some 10), (1201, some 10), (1801, some 10), (2401, some 10), (3001, some 10),
-     (3601, some 10), (4201, some 10)] = .ok [none] := by
-  decide +kernel
+     (3601, some 10), (4201, some 10), (4801, some 10), (5401, some 10), (6001, some 10), (6601, some 10),
+     (7201, some 10)] = .ok (3600, [some 10, some 10, none, none]) := by decide +kernel
 
-/-- and a covered period gets the exact average: stamps 0, 1800, 3600, 7200 with values 0, 2, 4, 8, hourly
-output from 3600 -/
-example : kernel (⟨3600, 0, 432000, 1 / 100000000⟩ : Cfg ℚ) 3600 2
-    [(0, some 0), (1800, some 2), (3600, some 4), (7200, some 8)] = .ok [some 6] := by
-  decide +kernel
+/-- `wrapper_empty`, `wrapper_rejects_bad_period`, `wrapper_rejects_small_maxgap` -/
+example : wrapper exCfg [(10, some 1), (700, some 2)] = .ok (3600, []) := by decide +kernel
+example : wrapper { exCfg with P := 900 } exObs = .error .badPeriod := by decide +kernel
+example : wrapper { exCfg with maxgap := 3599 } exObs = .error .badMaxgap := by decide +kernel
+
+/-- `index_independence`: the wall-clock stamps 00:00, 01:00, 02:00, 03:00 stored in milliseconds in a zone
+9 h 30 min ahead of UTC (raw counts are the UTC instants) give the result of the naive seconds -/
+example : wrapperIdx exCfg .ms [(0 - 34200000, 34200, some 0), (3600000 - 34200000, 34200, some 4),
+      (7200000 - 34200000, 34200, some 8), (10800000 - 34200000, 34200, some 8)] =
+    wrapper exCfg [(0, some 0), (3600, some 4), (7200, some 8), (10800, some 8)] := by decide +kernel
+
+/-- the theorems over ℝ (`trapArea_eq_integral`, `value_is_integral_of_interpolant`,
+`value_is_average_of_interpolant`, `wrapper_value_is_average_of_interpolant`): on real-valued data 0, 4, 8 at
+00:00, 01:00, 02:00 the kernel returns 6 for 01:00–02:00 … -/
+example : kernel (⟨3600, 0, 432000, 1 / 100000000⟩ : Cfg ℝ) 3600 2
+    [(0, some 0), (3600, some 4), (7200, some 8)] = .ok [some 6] := by
+  simp [kernel, startScan, scanFrom, loop, period, walk, pStart, pEnd, invalid, piece, clipLo, clipHi, addPiece]
+  norm_num
+
+/-- … and the theorem says that this 6 is the integral of the interpolant over the period, divided by 3600 -/
+example : (6 : ℝ) =
+    (∫ x in ((perS 3600 3600 0 : Int) : ℝ)..((perE 3600 3600 0 : Int) : ℝ),
+        interp [(0, some 0), (3600, some 4), (7200, some 8)] x) / ((3600 : Int) : ℝ) :=
+  value_is_average_of_interpolant (⟨3600, 0, 432000, 1 / 100000000⟩ : Cfg ℝ)
+    ⟨Or.inr rfl, Or.inl rfl, by norm_num, by norm_num⟩ rfl 3600 2 _ _ _ (by simp [Sorted]) (by norm_num)
+    [some 6] (by
+      simp [kernel, startScan, scanFrom, loop, period, walk, pStart, pEnd, invalid, piece, clipLo, clipHi, addPiece]
+      norm_num) 0 6 rfl
 
 end HydroVerif.C14
